@@ -65,6 +65,10 @@ def tasks(tier):
     for case in ("unloading", "primary"):
         ts.append(("OgdenRoxburgh tangent [%s]" % case, "run_included", dict(modname="c03", fname="run_ogden", kwargs=dict(case=case), oid="C12.O2",
                                                                         why="the hand-coded pseudo-elastic model agrees with Hyperelastic(ogden_roxburgh) in stress and tangent only if its own stress and tangent are consistent derivatives")))
+    # ... and the hand-coded models return that stress also into a re-used out= buffer (SolidBody always passes the previous buffer)
+    for cfg in ("mu+bulk", "mu", "bulk", "Volumetric"):
+        ts.append(("NeoHooke[%s] out= buffers" % cfg, "run_included", dict(modname="c03", fname="run_neohooke", kwargs=dict(cfg=cfg), oid="C12.O2", select_oid="C03.O1o",
+                                                                     why="agreement with the AD version must hold for the values the hand-coded model returns into a supplied (dirty) out buffer")))
     ts.append(("linear-family", "run_linear_family", {}))
     ts.append(("plane", "run_plane", {}))
     ts.append(("orthotropic", "run_orthotropic", {}))
@@ -191,14 +195,20 @@ def run_pair(col, jmod, tmod, name):
         for case in cases:
             label = "%s [%s%s]" % (name, world, "" if case is None else ", max=" + case)
 
-            def chk(world=world, case=case):
+            contract = {}
+
+            def chk(world=world, case=case, contract=contract):
                 admodels.WORLD["reg_log"] = []
                 npmodel.MAX_CASE[0] = case
                 try:
                     aj = build_args(nj, world, kw)
                     at = build_args(nt, world, kw)
+                    admodels.WORLD["contract_log"] = []
                     rj = it.call(fj, [], aj)
+                    contract["jax"] = sorted({r for r, _ in admodels.WORLD["contract_log"]})
+                    admodels.WORLD["contract_log"] = []
                     rt = it.call(ft, [], at)
+                    contract["tensortrax"] = sorted({r for r, _ in admodels.WORLD["contract_log"]})
                 finally:
                     npmodel.MAX_CASE[0] = None
                 a, b = flatten(rj), flatten(rt)
@@ -214,6 +224,13 @@ def run_pair(col, jmod, tmod, name):
                 return not bad, detail, any(not x.is_const() for x in a)
 
             col.check("C12.O1", label, "the jax model and its tensortrax namesake denote the same function (same canonical ring element)", chk)
+            if case in (None, "first") and (contract.get("jax") or contract.get("tensortrax")):
+                # numpy / tensortrax read one triangle of the argument, jax symmetrises it: for an argument that is not symmetric the
+                # two backends evaluate different functions although the model bodies are the same text
+                col.add("C12.O7", "%s[%s]:symmetric-argument-routines" % (name, world),
+                        "eigvalsh / eigh / (tensortrax) expm receive symmetric arguments only -- otherwise the backends' conventions differ and the namesakes do not agree",
+                        False, "%s:%d / %s:%d: non-symmetric argument to jax %s, tensortrax %s (stored state not coaxial with C)" % (
+                            jmod.replace("felupe.constitution.", ""), nj.lineno, tmod.replace("felupe.constitution.", ""), nt.lineno, contract.get("jax"), contract.get("tensortrax")))
     finish_info(col, it)
 
 
@@ -426,7 +443,7 @@ def run_canary(col):
     col.add("canary", "fixtures/canary_twins.py", "twin comparison distinguishes a changed coefficient", differ, nontrivial=False)
 
 
-def run_included(col, modname, fname, kwargs, oid, why):
+def run_included(col, modname, fname, kwargs, oid, why, select_oid=None):
     from ..common import include
 
-    include(col, modname, fname, kwargs, oid, why)
+    include(col, modname, fname, kwargs, oid, why, select_oid=select_oid)
